@@ -542,3 +542,95 @@ def r11(ctx):
                             norm_path(b.path), show_in(b, idx)[:60], t.span['line']), t.span)
     if n < 1:
         raise AnchorMissing('bounds-checked indexing in src/corrupt.rs (found %d sites)' % n)
+
+
+@rule('C15', 'R-C15-12', 'T2 provenance (the exclusion set is always handed back)',
+      'every return of edit_word hands back the caller\'s exclusion set (the parameter, its unwrap_or_default(), or the local set built from it): a '
+      'fresh empty set on an early return forgets the protected positions, and the next edit of the chain touches them')
+def r12(ctx):
+    b = ctx.body(EW)
+    n = 0
+    for v, blk in ret_values(b):
+        if not (v[0] == 'agg' and v[1] == 'tuple' and len(v[3]) == 2):
+            continue
+        n += 1
+        x = v[3][1]
+        trees = [x, init_value(b, x)]
+        c = core(x)
+        ok = any(has(t_, ('arg', 8, ANY)) for t_ in trees)
+        if not ok and c[0] == 'var' and len(c) > 2:
+            # the local set: every definition of it derives from the parameter (shifted copies of the old set included)
+            defs = [v_ for s_, v_ in local_defs(b, c[2])]
+            seen, frontier = set(), list(defs)
+            while frontier and not ok:
+                t_ = frontier.pop()
+                if has(t_, ('arg', 8, ANY)) or has(init_value(b, t_), ('arg', 8, ANY)):
+                    ok = True
+                    break
+                for y in walk(t_):
+                    if isinstance(y, tuple) and y and y[0] == 'var' and len(y) > 2 and y[2] not in seen:
+                        seen.add(y[2])
+                        frontier += [v_ for s_, v_ in local_defs(b, y[2])]
+        ctx.require(ok, b, 'exclusions-returned', 'the exclusion set returned at line %d derives from the caller\'s set' % b.blocks[blk].term.span['line'],
+                    'edit_word returns `%s` as the exclusion set at line %d: the caller\'s protected positions are dropped' % (
+                        show_in(b, x)[:60], b.blocks[blk].term.span['line']), b.blocks[blk].term.span)
+    if n < 4:
+        raise AnchorMissing('tuple results of edit_word (found %d)' % n)
+
+
+@rule('C15', 'R-C15-13', 'T3 LOOP-EXIT (no resampling loop)',
+      'every loop of edit_word and of the edit samplers is driven by an iterator that ends (a `for` over candidates / positions): a loop that draws '
+      'from the rng until the draw satisfies a condition ("resample until the replacement differs") never ends for a table whose only positive weight '
+      'is the rejected value')
+def r13(ctx):
+    from analysis.seq import next_call_of
+    bodies = [b for b in ctx.facts.bodies if b.file() == 'src/corrupt.rs' and '::tests::' not in b.path]
+    n = 0
+    for b in bodies:
+        for lp in cfg.loops(b):
+            n += 1
+            draws = [t for t in b.terms('call') if t.bb in lp.blocks and re.search(r'Rng::(random|random_range|random_bool|sample|gen|gen_range)$|Distribution>::sample$|sample_edit$|SliceRandom.*::choose\w*$', t.callee_res() or '')]
+            if not draws:
+                continue
+            driven = next_call_of(b, lp) is not None
+            if not driven:
+                # a hand-written counting loop (`while i < n { .. draw .. }`) is as bounded as a `for`: some exit must not depend on a drawn value
+                from analysis.sym import edge_guards as _eg
+                drawn = [nosite(sym(b, t_.dest)) for t_ in draws if t_.dest is not None]
+                for (u_, w_) in lp.exits(b):
+                    gs_ = [g_ for g_ in _eg(b) if g_.block == u_ and g_.target == w_]
+                    dl_ = {t_.dest.local for t_ in draws if t_.dest is not None and not t_.dest.proj}
+                    for _ in range(3):
+                        # locals the drawn value is moved into inside the loop (`replacement = <temp of the call>`)
+                        for st_ in b.stmts():
+                            if not (st_.bb in lp.blocks and st_.kind == 'assign' and not st_.lhs.proj):
+                                continue
+                            raw_ = getattr(st_.rv, 'raw', None) or {}
+                            src_ = None
+                            if raw_.get('k') == 'use' and isinstance(raw_.get('op'), dict) and 'pl' in raw_['op']:
+                                src_ = raw_['op']['pl']['l']
+                            elif raw_.get('k') in ('ref', 'cast', 'copy_for_deref') and isinstance(raw_.get('pl'), dict):
+                                src_ = raw_['pl']['l']
+                            elif raw_.get('k') == 'cast' and isinstance(raw_.get('op'), dict) and 'pl' in raw_['op']:
+                                src_ = raw_['op']['pl']['l']
+                            if src_ in dl_:
+                                dl_.add(st_.lhs.local)
+
+                    def on_draw(tr):
+                        for x_ in walk(tr):
+                            if not (isinstance(x_, tuple) and x_):
+                                continue
+                            if any(nosite(x_) == dv_ for dv_ in drawn):
+                                return True
+                            if (x_[0] == 'var' and len(x_) > 2 and x_[2] in dl_) or (x_[0] == 'phi' and x_[1] in dl_):
+                                return True
+                        return False
+                    if gs_ and not any(on_draw(g_.t) for g_ in gs_):
+                        driven = True
+            ctx.require(driven, b, 'resampling-loop|' + norm_path(b.path).rsplit('::', 1)[-1],
+                        '%s: the loop at line %d that draws from the rng is a `for` over a finite iterator' % (norm_path(b.path), b.blocks[lp.header].term.span['line']),
+                        '%s: the loop at line %d draws from the rng (`%s`, line %d) until a condition on the draw holds and has no other exit: for a table in '
+                        'which the rejected value is the only one with positive weight it never ends' % (
+                            norm_path(b.path), b.blocks[lp.header].term.span['line'], (draws[0].callee_res() or '').rsplit('::', 1)[-1], draws[0].span['line']),
+                        b.blocks[lp.header].term.span)
+    ctx.ok(None, '%d loops in src/corrupt.rs inspected' % n)
